@@ -7,7 +7,7 @@ from bounded import realrun
 from harness import loader
 from specs import lex
 
-LINES = ["a = 1", "b = 'x", "b = 'x&", "w = 'p &", "y'", "&", "  & c", "d &", "&e &", "! com", "", "f; g", "s = '!;&' // &", "   t = \"it's\" ! c;d", "&  z'", "q = ''''", "& y' ! c", "&n''t' // 'x' ! c;d", "u = \"it's &", "&so\" ! c;d"]
+LINES = ["a = 1", "b = 'x", "b = 'x&", "w = 'p &", "y'", "&", "  & c", "d &", "&e &", "! com", "", "f; g", "s = '!;&' // &", "   t = \"it's\" ! c;d", "&  z'", "q = ''''", "& y' ! c", "&n''t' // 'x' ! c;d", "u = \"it's &", "&so\" ! c;d", "        & y' ! c", "          &y'; g ! c"]
 
 
 class Invalid(Exception):
@@ -156,6 +156,28 @@ def parser_literal_cases():
             exp = [("g", l1), ("s", l2), ("after", None)]
             if got != exp:
                 return {"confirmed": True, "input": {"source": src}, "actual": got, "expected": exp, "how": "real parser: (name, initial value) of the declared variables"}
+    # literals in attributes and in a length expression come back as well
+    src = ("module m\n  use iso_c_binding\n  integer(c_int), bind(C, name=\"Foo_Bar\") :: cvar\n  character(len=len('ab;c')) :: s\n  integer, dimension(len(\"q!r\")) :: d\nend module m\n")
+    try:
+        f = realrun.parse_source(src)
+        got = [(v.name, v.attribs, v.strlen) for v in f.modules[0].variables]
+    except Exception as e:
+        got = f"{type(e).__name__}: {e}"
+    exp = [("cvar", ['bind(C, name="Foo_Bar")'], None), ("s", [], "len('ab;c')"), ("d", ['dimension(len("q!r"))'], None)]
+    if got != exp:
+        return {"confirmed": True, "input": {"source": src}, "actual": got, "expected": exp, "how": "real parser: (name, attributes, character length) of the declared variables"}
+    # the `lower` option lower-cases code, never the text of a literal
+    src = ("module m\n  CHARACTER(len=*), PARAMETER :: Greeting = 'Hello; World ! \"Not\" A Comment & More', Name = \"Worker_C_Name\"\n  character(len=8) :: Late\n"
+           "  parameter (Late = 'Mixed Up')\nend module m\n")
+    try:
+        f = realrun.parse_source(src, lower=True)
+        got = [(v.name, v.initial) for v in f.modules[0].variables]
+    except Exception as e:
+        got = f"{type(e).__name__}: {e}"
+    exp = [("greeting", "'Hello; World ! \"Not\" A Comment & More'"), ("name", '"Worker_C_Name"'), ("late", "'Mixed Up'")]
+    if got != exp:
+        return {"confirmed": True, "input": {"source": src, "settings": {"lower": True}}, "actual": got, "expected": exp,
+                "how": "real parser with the `lower` option: (name, initial value) of the declared variables"}
     return None
 
 
